@@ -11,7 +11,7 @@ CONSTANTS
   MaxBlocks = 2
   MaxUpdates = 1
   Supply0 = 1000
-  Denoms = {"uc4e"}
+  Denoms = {"uc4e", "stake"}
   Accs <- MCAccs
   ModuleIds = {"m1", "m2", "fc"}
   BaseIds = {"b1"}
